@@ -347,6 +347,10 @@ func (b *tqcache) PutMany(ctx context.Context, bs []blocks.Block) error {
 
 	err := b.blockstore.PutMany(ctx, good.blocks)
 	if err != nil {
+		// some blocks may have been written: drop what the cache believed
+		for _, key := range good.keys {
+			b.cacheInvalidate(key)
+		}
 		return err
 	}
 	for i, key := range good.keys {
